@@ -2595,6 +2595,65 @@ const fn window_bits_from_flags(flags: u32) -> u8 {
     }
 }
 
+/// Verification hooks (read-only accessors and wrappers around private pure functions).
+/// Compiled only with `--cfg miniz_oxide_verif`.
+#[cfg(miniz_oxide_verif)]
+pub mod verif {
+    use super::*;
+
+    /// Bookkeeping registers of the compressor, for localising a model/implementation
+    /// disagreement. Never used to decide a property.
+    #[allow(clippy::type_complexity)]
+    pub fn params(d: &CompressorOxide) -> [u64; 16] {
+        [
+            d.params.flags as u64,
+            d.params.flush_remaining as u64,
+            d.params.flush_ofs as u64,
+            d.params.saved_match_len as u64,
+            d.params.saved_match_dist as u64,
+            d.params.saved_lit as u64,
+            d.dict.lookahead_size as u64,
+            d.dict.lookahead_pos as u64,
+            d.dict.size as u64,
+            d.dict.code_buf_dict_pos as u64,
+            d.lz.code_position as u64,
+            d.lz.total_bytes as u64,
+            d.params.block_index as u64,
+            d.params.saved_bits_in as u64,
+            d.params.finished as u64,
+            d.params.window_bits_max as u64,
+        ]
+    }
+
+    pub fn header_from_flags(flags: u32, window_bits: u8) -> [u8; 2] {
+        zlib::header_from_flags(flags, window_bits)
+    }
+
+    pub fn limit_level_by_window_bits(window_bits: u8, level: i32, strategy: i32) -> (i32, i32) {
+        let strategy = match strategy {
+            1 => CompressionStrategy::Filtered,
+            2 => CompressionStrategy::HuffmanOnly,
+            3 => CompressionStrategy::RLE,
+            4 => CompressionStrategy::Fixed,
+            _ => CompressionStrategy::Default,
+        };
+        let (l, s) = super::limit_level_by_window_bits(window_bits, level, strategy);
+        (l, s as i32)
+    }
+
+    pub fn window_bits_from_flags(flags: u32) -> u8 {
+        super::window_bits_from_flags(flags)
+    }
+
+    pub fn probes_from_flags(flags: u32) -> [u32; 2] {
+        super::probes_from_flags(flags)
+    }
+
+    pub fn update_hash(current_hash: u16, byte: u8) -> u16 {
+        super::update_hash(current_hash, byte)
+    }
+}
+
 #[cfg(test)]
 mod test {
     use super::{
